@@ -16,22 +16,80 @@ class C08(Prop):
             'walks and float walks), non-negative weights with the long-only sizer and signed weights with the long/short sizer, '
             'weekly on any weekday / daily / end-of-month / buy-and-hold, buffers, leverages, zero and percentage fees, initial cash, '
             'start/end dates, optional burn-in; compared with the independent Spec simulator (the property) and with the session model; '
+            'plus sessions with every alpha model (fixed, universe-driven, top-N momentum, SMA trend; static and dynamic universes) '
+            'compared with the rules simulator driven by the allocation rows the session itself recorded; '
             'non-trivial = at least one fill; distinct = hash of the configuration')
 
     def gen(self, rng, tier):
         n = 160 if tier == 'quick' else 2500
-        return [sl.gen_session(rng, tier, fixed_only=True, all_quoted=True, allow_dynamic=False,
-                               max_days=(45 if tier == 'quick' else 400)) for _ in range(n)]
+        out = [sl.gen_session(rng, tier, fixed_only=True, all_quoted=True, allow_dynamic=False,
+                              max_days=(45 if tier == 'quick' else 400)) for _ in range(n)]
+        # every alpha model, static and dynamic universes: the rules driven by the recorded allocation rows
+        for _ in range(n // 2):
+            c = sl.gen_session(rng, tier, all_quoted=True, max_days=(35 if tier == 'quick' else 200))
+            c['stream'] += ':rows'
+            c['any_alpha'] = True
+            out.append(c)
+        return out
+
+    NOP = ['num', ['floor', Fraction(0)]]
+
+    def rows_case(self, c, impl):
+        cfg = c['cfg']
+        r = cfg['rebal']
+        rows = [[[k, Fraction(v)] for k, v in row] for _, row in impl['allocs']]
+        return ['spec_rows', [int(cfg['start']), int(cfg['end']), Fraction(cfg['cash']),
+                              (['weekly', r[1]] if r[0] == 'weekly' else [r[0]]), bool(cfg['long_only']), Fraction(cfg['param']),
+                              sl.bl.fee_val(cfg['fee']), ([] if cfg.get('burn') is None else [int(cfg['burn'])]),
+                              rows, sl.market_val(c['market'])]]
+
+    def model_case2(self, c, impl):
+        s = sl.session_model_case(c)
+        parts = [[s[0], s[1]]]
+        if c.get('any_alpha'):
+            parts.append(self.NOP)
+        else:
+            p = sl.spec_model_case(c)
+            parts.append([p[0], p[1]])
+        ok_rows = (isinstance(impl, dict) and impl.get('init', [''])[0] == 'ok' and impl.get('error') is None
+                   and all(fr(v) is not None for _, row in impl['allocs'] for _, v in row))
+        parts.append(self.rows_case(c, impl) if ok_rows else self.NOP)
+        return ('multi', parts)
 
     def model_case(self, c):
         s = sl.session_model_case(c)
         p = sl.spec_model_case(c)
-        return ('multi', [[s[0], s[1]], [p[0], p[1]]])
+        return ('multi', [[s[0], s[1]], [p[0], p[1]], self.NOP])
+
+    def against_rules(self, label, mspec, impl, F, tol, j):
+        _, cash, hold, pending, days = mspec[:5]
+        sf = [f for d in days for f in d[0]]
+        if len(sf) != len(impl['fills']):
+            F.append('session made %d fills, %s give %d' % (len(impl['fills']), label, len(sf)))
+        else:
+            for k, (a, b) in enumerate(zip(sf, impl['fills'])):
+                if a[0] != b[0] or a[1] != b[1] or a[2] != fr(b[2]) or not close(a[3], b[3], tol) or not close(a[4], b[4], tol):
+                    F.append('fill #%d is %s, %s give %s' % (k, b, label, [a[0], a[1], a[2], float(a[3]), float(a[4])]))
+                    break
+            if sf:
+                j.nontrivial = True
+        se = [d[1][0] for d in days if d[1]]
+        if [t for t, _ in se] != [t for t, _ in impl['equity']]:
+            F.append('equity dates %s..., %s %s...' % ([t for t, _ in impl['equity']][:3], label, [t for t, _ in se][:3]))
+        else:
+            for (t, x), (_, y) in zip(se, impl['equity']):
+                if not close(x, y, tol):
+                    F.append('equity at %d is %s, cash + holdings at the close per %s = %s' % (t, y, label, float(x)))
+                    break
+        if not close(cash, impl['cash'], tol):
+            F.append('final cash %s, %s give %s' % (impl['cash'], label, float(cash)))
+        if sorted((a, q) for a, q in hold) != sorted((a, int(q)) for a, q in impl['holdings']):
+            F.append('final holdings %s, %s give %s' % (impl['holdings'], label, hold))
 
     def judge(self, c, impl, mod):
         j = Judgement()
         j.key = hash(repr(c['cfg']))
-        msess, mspec = mod
+        msess, mspec, mrows = mod
         sl.compare_session(c, impl, msess, j)
         F = j.failures
         if impl['init'][0] != 'ok':
@@ -39,38 +97,23 @@ class C08(Prop):
         if j.knife:
             return j
         tol = Fraction(1, 10**9) * Fraction(sl.sess_scale(c))
-        if mspec[0] != 'ok':
-            if impl['error'] is None:
-                F.append('the documented rules cannot be applied (a needed price is missing / a weight is negative) but the session ran')
-            return j
-        if impl['error'] is not None:
-            F.append('session failed with %s at %s although the documented rules apply' % tuple(impl['error']))
-            return j
-        _, cash, hold, pending, days = mspec
-        sf = [f for d in days for f in d[0]]
-        if len(sf) != len(impl['fills']):
-            # a sizing knife edge can only have been detected through the session-model comparison
-            F.append('session made %d fills, the documented rules give %d' % (len(impl['fills']), len(sf)))
-        else:
-            for k, (a, b) in enumerate(zip(sf, impl['fills'])):
-                # spec: [t, asset, q, price, comm]; impl: [t, asset, qty, price, comm]
-                if a[0] != b[0] or a[1] != b[1] or a[2] != fr(b[2]) or not close(a[3], b[3], tol) or not close(a[4], b[4], tol):
-                    F.append('fill #%d is %s, the documented rules give %s' % (k, b, [a[0], a[1], a[2], float(a[3]), float(a[4])]))
-                    break
-            if sf:
-                j.nontrivial = True
-        se = [d[1][0] for d in days if d[1]]
-        if [t for t, _ in se] != [t for t, _ in impl['equity']]:
-            F.append('equity dates %s..., documented rules %s...' % ([t for t, _ in impl['equity']][:3], [t for t, _ in se][:3]))
-        else:
-            for (t, x), (_, y) in zip(se, impl['equity']):
-                if not close(x, y, tol):
-                    F.append('equity at %d is %s, cash + holdings at the close per the rules = %s' % (t, y, float(x)))
-                    break
-        if not close(cash, impl['cash'], tol):
-            F.append('final cash %s, documented rules give %s' % (impl['cash'], float(cash)))
-        if sorted((a, q) for a, q in hold) != sorted((a, int(q)) for a, q in impl['holdings']):
-            F.append('final holdings %s, documented rules give %s' % (impl['holdings'], hold))
+        if not c.get('any_alpha'):
+            if mspec[0] != 'ok':
+                if impl['error'] is None:
+                    F.append('the documented rules cannot be applied (a needed price is missing / a weight is negative) but the session ran')
+                return j
+            if impl['error'] is not None:
+                F.append('session failed with %s at %s although the documented rules apply' % tuple(impl['error']))
+                return j
+            self.against_rules('the documented rules', mspec, impl, F, tol, j)
+        # the rules driven by the allocation rows the session recorded (any alpha model)
+        if impl['error'] is None and isinstance(mrows, list) and mrows and mrows[0] in ('ok', 'none'):
+            if mrows[0] == 'none':
+                F.append('the session ran, but the documented rules cannot be applied to its recorded target allocations')
+            else:
+                if mrows[5] != 0:
+                    F.append('%d recorded allocation rows were never used by a scheduled rebalance' % mrows[5])
+                self.against_rules('the rules applied to the recorded allocations', mrows, impl, F, tol, j)
         return j
 
     def shrink_candidates(self, c):
